@@ -207,6 +207,16 @@ fn check_arrival(_seed: u64) -> i32 {
             if g != Ok(exp_so) { return fail("arrival::SumOf::clone_with_jitter", format!("{{\"T\": {}, \"J\": {}, \"a\": {}, \"delta\": {}}}", t, j, a, delta), format!("{:?}", g), format!("{}", exp_so)); }
         }}
     }}}
+    // interval lengths at the very top of the u64 range (no jitter: delta + jitter must stay representable): the bound is
+    // ceil(delta / T) and computing it must not overflow in either build profile
+    for t in [1u64, 2, 3, 7, 1 << 32] { for back in 0..=8u64 {
+        let delta = u64::MAX - back;
+        let exp = ((delta as u128 + t as u128 - 1) / t as u128) as usize;
+        let got = guarded(|| Periodic::new(d(t)).number_arrivals(d(delta)));
+        if got != Ok(exp) { return fail("arrival::Periodic::number_arrivals", format!("{{\"T\": {}, \"delta\": {}}}", t, delta), format!("{:?}", got), format!("{}", exp)); }
+        let got = guarded(|| Sporadic::new(d(t), d(0)).number_arrivals(d(delta)));
+        if got != Ok(exp) { return fail("arrival::Sporadic::number_arrivals", format!("{{\"T\": {}, \"J\": 0, \"delta\": {}}}", t, delta), format!("{:?}", got), format!("{}", exp)); }
+    }}
     // Curve: delta-min prefix, against the definition (whole-prefix repetition + count of distances below the tail)
     for a in 0..=4u64 { for b in a..=6u64 { for c in b.max(1)..=7u64 { for delta in 0..=30u64 {
         let dm = [a, b, c];
@@ -216,6 +226,15 @@ fn check_arrival(_seed: u64) -> i32 {
         let got = guarded(|| cu.number_arrivals(d(delta)));
         if got != Ok(exp) { return fail("arrival::Curve::number_arrivals", format!("{{\"dmin\": [{}, {}, {}], \"delta\": {}}}", a, b, c, delta), format!("{:?}", got), format!("{}", exp)); }
     }}}}
+    // four-entry prefixes: plateaus in the middle of the prefix (the lookup must resolve a query that equals a repeated distance
+    // to the FIRST of the equal entries)
+    for a in 0..=3u64 { for b in a..=5u64 { for c in b..=6u64 { for e in c.max(1)..=8u64 { for delta in 0..=(2 * e + 2) {
+        let dm = [a, b, c, e];
+        let cu = Curve::new(dm.iter().map(|x| d(*x)).collect());
+        let exp = if delta == 0 { 0 } else { let tail = delta % e; (delta / e) * 4 + if tail == 0 { 0 } else { 1 + dm.iter().filter(|x| **x < tail).count() as u64 } } as usize;
+        let got = guarded(|| cu.number_arrivals(d(delta)));
+        if got != Ok(exp) { return fail("arrival::Curve::number_arrivals", format!("{{\"dmin\": [{}, {}, {}, {}], \"delta\": {}}}", a, b, c, e, delta), format!("{:?}", got), format!("{}", exp)); }
+    }}}}}
     // from_trace: the curve must bound the number of trace events in every window; entries are exact minimum spans
     let traces: [&[u64]; 6] = [&[0, 10, 10, 15], &[0, 10, 20, 30, 31, 32], &[0, 1, 2, 3, 50, 51], &[5, 5, 5, 9], &[0, 3, 4, 10, 11, 12, 30], &[0, 100, 101, 102, 103]];
     for tr in traces { for pj in 1..=4usize {
@@ -334,6 +353,19 @@ fn check_steps(_seed: u64) -> i32 {
             chk!("steps::ExtrapolatingCurve", format!("{{\"dmin\": [{}, {}, {}]}}", a, b, c), steps_ok(&ex, h));
         }
     }}}
+    // one- and two-entry delta-min prefixes (ExtrapolatingCurve takes a different branch for a single entry), bare, inside an RBF
+    // and summed with a model that never steps
+    for p in 1..=6u64 {
+        let mk = || Curve::new(vec![d(p)]);
+        chk!("steps::Curve", format!("{{\"dmin\": [{}]}}", p), steps_ok(&mk(), h));
+        chk!("steps::ExtrapolatingCurve", format!("{{\"dmin\": [{}]}}", p), steps_ok(&arrival::ExtrapolatingCurve::new(mk()), h));
+        chk!("steps::RBF", format!("{{\"ExtrapolatingCurve dmin\": [{}]}}", p), rb_steps_ok(&RBF::new(arrival::ExtrapolatingCurve::new(mk()), Scalar::new(s(2))), h));
+        chk!("steps::sum_of", format!("{{\"ExtrapolatingCurve dmin\": [{}], \"b\": \"Never\"}}", p), steps_ok(&arrival::sum_of(arrival::ExtrapolatingCurve::new(mk()), arrival::Never {}), h));
+        for q in (p + 1)..=8u64 {
+            chk!("steps::Curve", format!("{{\"dmin\": [{}, {}]}}", p, q), steps_ok(&Curve::new(vec![d(p), d(q)]), h));
+            chk!("steps::ExtrapolatingCurve", format!("{{\"dmin\": [{}, {}]}}", p, q), steps_ok(&arrival::ExtrapolatingCurve::new(Curve::new(vec![d(p), d(q)])), h));
+        }
+    }
     // conversions: never smaller than the source, equal on the covered prefix -- including bursty sources (jitter up to 3T)
     // and cut-offs inside the burst (KF6, repaired)
     for t in 1..=7u64 { for j in 0..=(3 * t) { for n in 1..=6usize { for hz in [0u64, 1, 5, 11, 20] {
@@ -445,6 +477,15 @@ fn check_wcet_demand(_seed: u64) -> i32 {
         let exp_mf = mfl(n1, &[c1 + 4, c1]).min(mfl(n2p, &[c2, c2 + 2]));
         let got_mf = us(demand::Slice::of(&mf).least_wcet_in_interval(d(delta)));
         if got_mf != exp_mf { return fail("demand::Slice::least_wcet_in_interval", format!("{{\"multiframe\": [[{}, [{}, {}]], [{}, [{}, {}]]], \"delta\": {}}}", t1, c1 + 4, c1, t2, c2, c2 + 2, delta), format!("{}", got_mf), format!("{}", exp_mf)); }
+        // a component whose first job costs nothing: the least WCET in the interval is 0 as soon as that job can arrive
+        {
+            let zf = vec![RBF::new(Periodic::new(d(t1)), wcet::Multiframe::new(vec![s(0), s(c1)])), RBF::new(Periodic::new(d(t2)), wcet::Multiframe::new(vec![s(c2), s(c2 + 2)]))];
+            let exp_zf = mfl(n1, &[0, c1]).min(mfl(n2p, &[c2, c2 + 2]));
+            let got_sl = us(demand::Slice::of(&zf).least_wcet_in_interval(d(delta)));
+            let got_ag = us(demand::Aggregate::new(zf.clone()).least_wcet_in_interval(d(delta)));
+            if got_sl != exp_zf { return fail("demand::Slice::least_wcet_in_interval", format!("{{\"multiframe\": [[{}, [0, {}]], [{}, [{}, {}]]], \"delta\": {}}}", t1, c1, t2, c2, c2 + 2, delta), format!("{}", got_sl), format!("{}", exp_zf)); }
+            if got_ag != exp_zf { return fail("demand::Aggregate::least_wcet_in_interval", format!("{{\"multiframe\": [[{}, [0, {}]], [{}, [{}, {}]]], \"delta\": {}}}", t1, c1, t2, c2, c2 + 2, delta), format!("{}", got_ag), format!("{}", exp_zf)); }
+        }
         // n-largest-jobs restriction on every level (RBF, Slice, Aggregate), multiframe and curve cost models:
         // sum of the n largest costs among the jobs that can arrive in delta
         {
@@ -1179,7 +1220,7 @@ fn mk_ab_nested(r: &mut Rng, depth: u32) -> (Box<dyn ArrivalBound>, String) {
     if depth == 0 || r.below(3) == 0 { return mk_ab(r); }
     match r.below(4) {
         0 => { let (a, da) = mk_ab_nested(r, depth - 1); let (b, db) = mk_ab_nested(r, depth - 1); (Box::new(arrival::sum_of(a, b)), format!("sum_of({}, {})", da, db)) }
-        1 => { let k = 1 + r.below(3); let mut v = vec![]; let mut ds = vec![]; for _ in 0..k { let (a, da) = mk_ab_nested(r, depth - 1); v.push(a); ds.push(da); } (Box::new(v), format!("vec{:?}", ds)) }
+        1 => { let k = 1 + r.below(3); let mut v = vec![]; let mut ds = vec![]; for _ in 0..k { let (a, da) = mk_ab_nested(r, depth - 1); v.push(a); ds.push(da); } (Box::new(v), format!("vec[{}]", ds.join(", "))) }
         2 => { let (a, da) = mk_ab_nested(r, depth - 1); let j = r.below(9); (a.clone_with_jitter(d(j)), format!("{}.clone_with_jitter({})", da, j)) }
         _ => { let (a, da) = mk_ab_nested(r, depth - 1); let j = r.below(9); let j2 = r.below(5); (a.clone_with_jitter(d(j)).clone_with_jitter(d(j2)), format!("{}.clone_with_jitter({}).clone_with_jitter({})", da, j, j2)) }
     }
@@ -1422,6 +1463,48 @@ fn check_analyses_any(seed: u64) -> i32 {
         let fl_others: Vec<_> = hps.iter().zip(dls.iter()).zip(segs.iter()).map(|((rb, dl), sg)| edf::floating_nonpreemptive::InterferingTask { rbf: rb, deadline: d(*dl), max_np_segment: s(*sg) }).collect();
         cmp!("edf::floating_nonpreemptive::dedicated_uniproc_rta",
              edf::floating_nonpreemptive::dedicated_uniproc_rta(&edf::floating_nonpreemptive::TaskUnderAnalysis { rbf: &tua, deadline: d(dl0) }, &fl_others, d(limit)), exp_fl);
+        // fully preemptive / limited-preemptive / fully non-preemptive EDF with scalar costs over arbitrary arrival models --
+        // in particular interfering tasks that never release a job (they must neither interfere nor block) and bursts
+        {
+            let k = r.below(3) as usize;
+            let mut oabs: Vec<Box<dyn ArrivalBound>> = vec![]; let mut odesc = vec![];
+            for _ in 0..k { let (ab, da) = if r.below(4) == 0 { (Box::new(arrival::Never {}) as Box<dyn ArrivalBound>, "Never".to_string()) } else { mk_ab_nested(&mut r, 1) }; odesc.push(da); oabs.push(ab); }
+            let ocs: Vec<u64> = (0..k).map(|_| 1 + r.below(9)).collect();
+            let odl: Vec<u64> = (0..k).map(|_| 1 + r.below(40)).collect();
+            let osg: Vec<u64> = (0..k).map(|i| 1 + r.below(ocs[i])).collect();
+            let (tab, tdesc) = loop { let x = mk_ab_nested(&mut r, 1); if x.0.number_arrivals(d(1)) > 0 { break x; } };
+            let c0 = 1 + r.below(4); let last = 1 + r.below(c0); let dl0 = 1 + r.below(40);
+            let tf = |x: u64| c0 * tab.number_arrivals(d(x)) as u64;
+            let of = |i: usize, x: u64| ocs[i] * oabs[i].number_arrivals(d(x)) as u64;
+            let edfx = |segs: &Vec<u64>, rem: u64| -> Option<u64> {
+                let l = dscan(limit, &|x| (0..k).map(|i| of(i, x)).sum::<u64>() + tf(x))?;
+                let mut best = 0u64;
+                for a in 0..l {
+                    let blk = (0..k).filter(|&i| odl[i] > dl0 + a && of(i, 1) > 0).map(|i| segs[i].saturating_sub(1)).max().unwrap_or(0);
+                    let af = dscan(limit, &|x| blk + (tf(a + 1) - rem) + (0..k).map(|i| of(i, x.min((a + 1 + dl0).saturating_sub(odl[i])))).sum::<u64>())?;
+                    best = best.max(af.saturating_sub(a) + rem);
+                }
+                Some(best)
+            };
+            desc = format!("{{\"tua\": \"{} x Scalar({})\", \"deadline\": {}, \"last_np_segment\": {}, \"others\": {:?}, \"wcets\": {:?}, \"deadlines\": {:?}, \"max_np_segments\": {:?}, \"limit\": {}}}", tdesc, c0, dl0, last, odesc, ocs, odl, osg, limit);
+            let orbfs: Vec<_> = (0..k).map(|i| RBF::new(&oabs[i], Scalar::new(s(ocs[i])))).collect();
+            let trbf = RBF::new(&tab, Scalar::new(s(c0)));
+            let fp_others: Vec<_> = (0..k).map(|i| edf::fully_preemptive::Task { rbf: &orbfs[i], deadline: d(odl[i]) }).collect();
+            let ones: Vec<u64> = vec![1; k];
+            cmp!("edf::fully_preemptive::dedicated_uniproc_rta", edf::fully_preemptive::dedicated_uniproc_rta(&edf::fully_preemptive::Task { rbf: &trbf, deadline: d(dl0) }, &fp_others, d(limit)), edfx(&ones, 0));
+            let lp_others: Vec<_> = (0..k).map(|i| edf::limited_preemptive::InterferingTask { rbf: &orbfs[i], deadline: d(odl[i]), max_np_segment: s(osg[i]) }).collect();
+            cmp!("edf::limited_preemptive::dedicated_uniproc_rta",
+                 edf::limited_preemptive::dedicated_uniproc_rta(&edf::limited_preemptive::TaskUnderAnalysis { wcet: Scalar::new(s(c0)), arrivals: &tab, deadline: d(dl0), last_np_segment: s(last) }, &lp_others, d(limit)), edfx(&osg, last - 1));
+            let np_others: Vec<_> = (0..k).map(|i| edf::fully_nonpreemptive::Task { wcet: Scalar::new(s(ocs[i])), arrivals: &oabs[i], deadline: d(odl[i]) }).collect();
+            cmp!("edf::fully_nonpreemptive::dedicated_uniproc_rta",
+                 edf::fully_nonpreemptive::dedicated_uniproc_rta(&edf::fully_nonpreemptive::Task { wcet: Scalar::new(s(c0)), arrivals: &tab, deadline: d(dl0) }, &np_others, d(limit)), edfx(&ocs, c0 - 1));
+            // the same interfering tasks under non-preemptive and limited-preemptive fixed priority
+            let hpf = |x: u64| (0..k).map(|i| of(i, x)).sum::<u64>();
+            cmp!("fixed_priority::fully_nonpreemptive::dedicated_uniproc_rta",
+                 fixed_priority::fully_nonpreemptive::dedicated_uniproc_rta(&fixed_priority::fully_nonpreemptive::TaskUnderAnalysis { wcet: Scalar::new(s(c0)), arrivals: &tab, blocking_bound: s(b) }, &orbfs, d(limit)), fpx(&tf, &hpf, b, c0 - 1, limit));
+            cmp!("fixed_priority::limited_preemptive::dedicated_uniproc_rta",
+                 fixed_priority::limited_preemptive::dedicated_uniproc_rta(&fixed_priority::limited_preemptive::TaskUnderAnalysis { wcet: Scalar::new(s(c0)), arrivals: &tab, last_np_segment: s(last), blocking_bound: s(b) }, &orbfs, d(limit)), fpx(&tf, &hpf, b, last - 1, limit));
+        }
     }
     0
 }
@@ -1542,6 +1625,7 @@ pub fn replay(json: &str) -> i32 {
         else if mirror.starts_with("ros2::") && json.contains("_table") { Some(check_ros2_tab) }
         else if mirror.starts_with("ros2::") { Some(check_ros2) }
         else if mirror.contains("dedicated_uniproc_rta") && json.contains("_table") { Some(check_analyses_tab) }
+        else if mirror.contains("dedicated_uniproc_rta") && json.contains("\"tua\": \"") { Some(check_analyses_any) }
         else if mirror.contains("dedicated_uniproc_rta") { Some(check_analyses) } else { None };
     let seed = json.split("\"seed\": ").nth(1).and_then(|x| x.trim_end_matches('}').trim().parse().ok()).unwrap_or(0);
     match f { Some(f) => f(seed), None => 2 }
